@@ -20,6 +20,11 @@ const (
 // order to avoid irrecoverable Go stack overflows.
 const maxGoFunctionCallDepth = 1000
 
+// The depth of nested calls to Thread.RunContinuation in one thread is limited
+// by this number, for the same reason.  Such a nested call occurs each time a
+// Lua function is called from Go, e.g. when the VM calls a metamethod.
+const maxRunContinuationDepth = 1000
+
 // Data passed between Threads via their resume channel (Thread.resumeCh).
 //
 // Supported types for exception are ContextTerminationError (which means
@@ -51,6 +56,10 @@ type Thread struct {
 	// cannot be recovered from (note that this does not limit recursion for Lua
 	// functions).
 	goFunctionCallDepth int
+
+	// Depth of nested RunContinuation calls in the thread.  This should not
+	// exceed maxRunContinuationDepth.
+	runContinuationDepth int
 
 	DebugHooks
 
@@ -92,6 +101,13 @@ func (t *Thread) RunContinuation(c Cont) (err error) {
 	// Nested calls (e.g. a metamethod called from a running Lua continuation)
 	// must leave the current continuation as they found it.
 	defer func(prev Cont) { t.currentCont = prev }(t.currentCont)
+
+	t.runContinuationDepth++
+	defer func() { t.runContinuationDepth-- }()
+	if t.runContinuationDepth > maxRunContinuationDepth {
+		return errors.New("stack overflow")
+	}
+
 	_ = t.triggerCall(t, c)
 	for c != nil {
 		if t != t.gcThread {
